@@ -960,4 +960,74 @@ func (s *sim) checkAccessors(box *stateBox, where string) {
 			return
 		}
 	}
+	// setters whose result is known: the field holds exactly the value given (also when only a part of
+	// it differs from the old value), and the root reported afterwards is the root of that content
+	// built from scratch
+	pj, _ := st.PreviousJustifiedCheckpoint()
+	cj, _ := st.CurrentJustifiedCheckpoint()
+	fc, _ := st.FinalizedCheckpoint()
+	type vsetter struct {
+		field string
+		apply func(c common.BeaconState) error
+		want  interface{}
+	}
+	cpSet := func(name string, cur common.Checkpoint, set func(c common.BeaconState, cp common.Checkpoint) error) []vsetter {
+		a := common.Checkpoint{Epoch: cur.Epoch + 1, Root: cur.Root}           // same root, next epoch
+		b := common.Checkpoint{Epoch: cur.Epoch, Root: fnvRoot("cp-"+name, 1)} // same epoch, other root
+		return []vsetter{
+			{name, func(c common.BeaconState) error { return set(c, a) }, a},
+			{name, func(c common.BeaconState) error { return set(c, b) }, b},
+		}
+	}
+	var vs []vsetter
+	vs = append(vs, cpSet("PreviousJustifiedCheckpoint", pj, func(c common.BeaconState, cp common.Checkpoint) error { return c.SetPreviousJustifiedCheckpoint(cp) })...)
+	vs = append(vs, cpSet("CurrentJustifiedCheckpoint", cj, func(c common.BeaconState, cp common.Checkpoint) error { return c.SetCurrentJustifiedCheckpoint(cp) })...)
+	vs = append(vs, cpSet("FinalizedCheckpoint", fc, func(c common.BeaconState, cp common.Checkpoint) error { return c.SetFinalizedCheckpoint(cp) })...)
+	fk, _ := st.Fork()
+	e1, _ := st.Eth1Data()
+	fk2 := common.Fork{PreviousVersion: fk.PreviousVersion, CurrentVersion: fk.CurrentVersion, Epoch: fk.Epoch + 1}
+	fk3 := common.Fork{PreviousVersion: fk.CurrentVersion, CurrentVersion: common.Version{7, 7, 7, 7}, Epoch: fk.Epoch}
+	e2 := common.Eth1Data{DepositRoot: e1.DepositRoot, DepositCount: e1.DepositCount + 1, BlockHash: e1.BlockHash}
+	e3 := common.Eth1Data{DepositRoot: e1.DepositRoot, DepositCount: e1.DepositCount, BlockHash: fnvRoot("e1", 3)}
+	vs = append(vs,
+		vsetter{"Fork", func(c common.BeaconState) error { return c.SetFork(fk2) }, fk2},
+		vsetter{"Fork", func(c common.BeaconState) error { return c.SetFork(fk3) }, fk3},
+		vsetter{"Eth1Data", func(c common.BeaconState) error { return c.SetEth1Data(e2) }, e2},
+		vsetter{"Eth1Data", func(c common.BeaconState) error { return c.SetEth1Data(e3) }, e3},
+		vsetter{"Slot", func(c common.BeaconState) error { return c.SetSlot(slot + 1) }, slot + 1},
+	)
+	hFn := tree.GetHashFn()
+	for _, set := range vs {
+		c, err := st.CopyState()
+		if err != nil {
+			return
+		}
+		_ = c.HashTreeRoot(hFn) // hashes cached before the write
+		if p := guard(func() { err = set.apply(c) }); p != nil {
+			s.viol("C15", "setter-panic/"+set.field+"/"+p.frame, p.val)
+			return
+		}
+		if err != nil {
+			s.viol("C15", "setter-error/"+set.field, fmt.Sprintf("%s (%s): %v", where, forkName(st), err))
+			return
+		}
+		s.res.Stat("setter_checks", 1)
+		after := s.rawOf(c)
+		if got := fieldOf(after, set.field); !reflect.DeepEqual(got, set.want) {
+			s.viol("C15", "setter-value/"+set.field, fmt.Sprintf("%s (%s): Set%s(%+v): the state now holds %+v (before: %+v)", where, forkName(st), set.field, set.want, got, fieldOf(raw, set.field)))
+			return
+		}
+		if ch := changedFields(raw, after); len(ch) != 1 || ch[0] != set.field {
+			s.viol("C15", "setter-touches-other-fields/"+set.field, fmt.Sprintf("%s (%s): setting %s changed %v", where, forkName(st), set.field, ch))
+			return
+		}
+		if sr, ok := after.(interface {
+			HashTreeRoot(spec *common.Spec, hFn tree.HashFn) common.Root
+		}); ok {
+			if r1, r2 := c.HashTreeRoot(hFn), sr.HashTreeRoot(s.w.spec, hFn); r1 != r2 {
+				s.viol("C05", "state/root-after-setter-vs-rebuilt/"+set.field, fmt.Sprintf("%s (%s): after Set%s the state reports root %s, the same content built from scratch has root %s", where, forkName(st), set.field, r1, r2))
+				return
+			}
+		}
+	}
 }
